@@ -77,6 +77,7 @@ func c04(r *core.Run) {
 	r.Rule("R2", "recover closure: deferred before any handler call; returns on recover()==nil; every other return has state Yes for any entry state; sibling closures handle the same panic-value arms", 6)
 	r.Rule("R3", "pre-dispatch: every return of request processing has replied or follows the dispatcher call; every return of the message handler is a documented refusal (no reply subject / malformed subject) or follows the enqueue of processing", 4)
 	r.Rule("R4", "MayReply => MustReply for every method taking the request: if it can reach the funnel, every normal return has state Yes", 30)
+	r.Rule("R6", "pre-dispatch code cannot panic: no explicit panic is reachable (flag-sensitively) in request processing or the library functions it calls before the dispatcher's recover is installed", 2)
 	r.Rule("R5", "every handler call (dynamic call passing a request object) lies in a function that defers a recover closure in its entry block", 3)
 
 	models := c04Models(r, "R0")
@@ -344,6 +345,30 @@ func c04(r *core.Run) {
 					"replied or dispatched on every path", "state="+stateStr(st)+": request processing can return without a reply and without dispatching")
 			}
 			delete(mReq.extraMust, disp[0])
+			// R6: nothing between dequeue and the dispatcher's recover may panic explicitly: request
+			// processing runs on a worker with no recover of its own.
+			pm := &panicModel{m: mReq, memo: map[panicKey]string{}}
+			for _, c := range core.Calls(proc) {
+				cal := c.Common().StaticCallee()
+				if cal == nil || cal.Blocks == nil || cal.Pkg != proc.Pkg || cal == disp[0] {
+					continue
+				}
+				why := ""
+				for _, st := range res.Before[c].List() {
+					if w := pm.mayPanic(cal, st, mReq.takesT(c), 0); w != "" {
+						why = w
+					}
+				}
+				r.Check(why == "", "R6", core.FuncName(proc), "no-panic-before-dispatch:"+core.FuncName(cal), p.InstrPos(c),
+					"no explicit panic reachable in this callee for the flag states it is called with", "request processing can panic outside any recover ("+why+"): the worker dies holding no reply for the request")
+			}
+			for _, b := range proc.Blocks {
+				for _, in := range b.Instrs {
+					if pn, ok := in.(*ssa.Panic); ok && !res.Before[pn].Empty() {
+						r.Bad("R6", core.FuncName(proc), "no-explicit-panic", p.InstrPos(pn), "request processing panics outside any recover")
+					}
+				}
+			}
 			// message handler: who calls proc? must be inside a closure passed to the enqueue function
 			for _, c := range callsTo(root, proc) {
 				cl := c.Parent()
